@@ -310,13 +310,18 @@ def modes_term(modes):
 # implementation side
 class Pool:
     """inputs: pool[cfgN][kid] = arrays; kid = (vtk id, rest id): the same vtk id shares (bFV, bFT0)"""
-    def __init__(self, name, nr):
+    def __init__(self, name, nr, min_types=1):
         from onsager import OnsagerCalc
         self.name = name
         self.crys, self.chem = gen.named(name)
         import random
         net = gen.percolating_network(self.crys, self.chem, random.Random(0), maxshell=1)
         self.cut, self.sl, self.jn = net
+        # at least min_types symmetry-distinct omega0 jump types (so that inputs can change the RATIO of the bare rates)
+        sh = [x for x in gen.shells(self.crys, self.chem) if x + 1e-4 > self.cut]
+        while len(self.jn) < min_types and sh:
+            self.cut = sh.pop(0) + 1e-4
+            self.jn = self.crys.jumpnetwork(self.chem, self.cut)
         self.nr = nr
         self.inputs = {}
         self.ref = {}
@@ -502,7 +507,12 @@ def run(ck):
     # ---- 2. dynamic validation
     # square / honeycomb have eta_v = 0; the polar 2-D cells have a non-empty site vector basis (eta_v != 0), so that
     # a wrong cached bias correction is visible in L1vv
-    pools = {nm: Pool(nm, ck.nprng(i)) for i, nm in enumerate(["square", "honeycomb", "rect-polar2d", "oblique2d"])}
+    # rect, sq2w (2 shells), rect-polar2d, oblique2d have >= 2 omega0 jump types: different inputs change the RATIO of the bare
+    # rates, so anything the GF calculator keeps from an earlier SetRates shows up against a fresh calculator
+    pools = {nm: Pool(nm, ck.nprng(i), min_types=mt) for i, (nm, mt) in enumerate(
+        [("square", 1), ("honeycomb", 1), ("rect-polar2d", 2), ("oblique2d", 2), ("rect", 2), ("sq2w", 2)])}
+    ck.extra["omega0_jump_types"] = {nm: len(p.jn) for nm, p in pools.items()}
+    if sum(1 for p in pools.values() if len(p.jn) >= 2) < 3: raise RuntimeError("history pool lacks crystals with several omega0 jump types")
     dyn, dyn_sm = None, None
     for nm, pool in pools.items():
         d = pool.fresh((1, 4))
@@ -592,6 +602,34 @@ def run(ck):
             if alog:
                 V("cache entries alias each other / the GF calculator's buffers / returned arrays: %s" % alog[0][1],
                   {"calculator": nm, "Nthermo": N, "events": alog[:6]}, key="c14-cache-aliasing")
+    # ---- 4c. the caller reuses its INPUT arrays, then save/load  (the vTK cache key must not keep references to the inputs)
+    keyalias = None
+    for nm in ("square", "rect-polar2d"):
+        pool = pools[nm]
+        d = pool.fresh((1, 4))
+        A, B = pool.input((1, 4), (0, 0)), pool.input((1, 4), (1, 0))
+        buf = tuple(np.zeros_like(x) for x in A)
+        def put(X):
+            for b, a in zip(buf, X): b[...] = a
+        put(A); d.Lij(*buf)
+        keyalias = any(np.shares_memory(getattr(k, f), b) for k in d.GFvalues for f in ("pre", "betaene", "preT", "betaeneT") for b in buf)
+        put(B); d.Lij(*buf); put(A); d.Lij(*buf)
+        ck.case(key=("input-reuse", nm), nontrivial=True, kind="input-buffer-reuse")
+        try:
+            d2 = saveload(d, "k" + nm)
+            r = d2.Lij(*[x.copy() for x in A]); ref = pool.reference((1, 4), (0, 0))
+            diffs = [float(np.abs(np.asarray(x) - y).max()) for x, y in zip(r, ref)]
+        except Exception as e:
+            diffs = [float("inf")]; r = repr(e)
+        if max(diffs) > TOL:
+            V("after the caller reused its input arrays (A, B, A) a saved+reloaded calculator returns wrong coefficients for A (max |diff| %s): "
+              "the vTK cache keys hold references to the caller's bFV/bFT0 arrays, so two cache entries are written with the same key" % diffs,
+              {"calculator": nm, "crystal": repr(pool.crys), "cutoff": pool.cut, "A": [x.tolist() for x in A], "B": [x.tolist() for x in B],
+               "history": ["buf[:] = A; Lij(*buf)", "buf[:] = B; Lij(*buf)", "buf[:] = A; Lij(*buf)", "addhdf5; loadhdf5", "Lij(*A)"], "diffs_vs_fresh": diffs,
+               "cache_key_shares_memory_with_input": keyalias,
+               "minimal_patch": "Lij: vTK = vacancyThermoKinetics(pre=np.ones_like(bFV), betaene=np.array(bFV), preT=np.ones_like(bFT0), betaeneT=np.array(bFT0))"},
+              key="c14-cache-key-aliases-input")
+    ck.extra["cache_key_shares_memory_with_input"] = keyalias
     # ---- 5. re-generation probe
     regen_broken = False
     for nm, pool in pools.items():
@@ -653,6 +691,7 @@ def run(ck):
         rep = {"calculator": nm, "crystal": repr(pool.crys), "cutoff": pool.cut, "configurations(Nthermo,NGFmax)": cfgs,
                "ops": [" ".join(map(str, o)) for o in ops], "verdicts(component equals fresh)": verd}
         regen_seen = regen_broken and any(o[0] == "reconf" and cfgs[o[1]][0] != 1 for o in ops)
+        keyalias_seen = bool(keyalias) and any(o[0] == "saveload" for o in ops) and any(o[0] == "lij" and o[2] for o in ops)
         # has the calculator been re-generated to another Nthermo before? (cfg 0 has Nthermo 1)
         if exc is not None:
             n, o, msg = exc
@@ -672,6 +711,9 @@ def run(ck):
             if regen_seen:
                 V("after re-generation the results of a history differ from a fresh calculator (call %d)" % cde, {**rep, "first_differing_call": cde},
                   key="c14-regenerate-stale-vectorstars")
+            elif keyalias_seen:
+                V("history with reused input arrays and save/load differs from a fresh calculator (call %d)" % cde, {**rep, "first_differing_call": cde},
+                  key="c14-cache-key-aliases-input")
             else:
                 V("Lij results of a history differ from the cache model / a fresh calculator at call %d" % cde, {**rep, "first_differing_call": cde,
                   "model_modes": modes}, key="c14-history-mismatch")
